@@ -4,7 +4,7 @@ CONSTANTS
   MaxRs = {1, 2}
   HdrSel = {220, 1}
   Codes = {200, 301, 302, 303, 307, 308}
-  Locs = {0, 1, 2, 3, 4, 5, 6}
+  Locs = {0, 1, 2, 3, 4, 5, 6, 7, 8}
   Follows = {TRUE}
   L = 2
 CONSTRAINT GenBound
